@@ -191,7 +191,12 @@ func parentMain(seed uint64, out, tier string) {
 			if !ok {
 				kind, text := crashKind(co, dir)
 				if strings.Contains(co.stdout, "schedule could not be forced") {
-					kind, text = "unforced", lastLines(co.stdout, 3)
+					// the threads did not reach the wanted yield points within the controller's
+					// time-outs in any of the attempts (a slow or loaded machine): the schedule was
+					// NOT executed, so there is nothing to compare or to judge - inconclusive
+					ps.kinds["forced:inconclusive-unforced"]++
+					_ = text
+					continue
 				}
 				ps.kinds["forced:"+kind]++
 				if f.modelled {
